@@ -24,6 +24,23 @@
 //! real store and read back.  Directed images: the last trash moves undone (orphans), an
 //! interrupted rollover of the store manifest, a logged file not yet in trash/ (backoff), files
 //! removed and re-created under the same name within one edit, across edits and across fragments.
+//!
+//! Added (the two newest manifest entries; the live MANIFEST at the time of the orphan scan):
+//!  * `directed_newest` (histories n0..n3): D-28's history cut short, so that at the FIRST verifier
+//!    pass the second removal of the re-created files is still in MANIFEST or in the newest
+//!    numbered fragment — the two entries `LsmVerifier::verify` pops and never processes, but over
+//!    which `last_removals` ranges — while the first removal and the edit that adds the files back
+//!    are in processable fragments; then the passes that come to the second removal.  Oracle
+//!    classes as input predicates: `NEWEST2` (a pass unlinked, or stopped with NotFound on, the
+//!    trash copy of a file whose LAST removal is in the two newest entries).  The run fails
+//!    (`machinery`) if a history does not reach the situation.
+//!  * `relisted_case` (images relisted0, relisted1): the crash that catches the flush thread between
+//!    the ingest of X2 and the move of its log to trash/ and the compaction thread between the
+//!    manifest edit `-X1 -X2 +Y` and the install of the version; on reopen log recovery lists X2
+//!    again in the LIVE MANIFEST, before `cleanup_orphans` scans it.  The `orph` request carries the
+//!    fragments of the directory after the open, MANIFEST (with the recovery edits) last.  Oracle
+//!    class `RELISTED`: clean-up moved a file that an edit of the live MANIFEST written during this
+//!    open lists again.
 use crate::common::*;
 use crate::fstrace::{self, FsOp, SimFs};
 use crate::store::*;
@@ -103,6 +120,10 @@ impl XOp {
             XOp::BackoffImage => "backoff-image".into(),
         }
     }
+}
+
+fn ctr(rec: &Recorder, key: &str) -> u64 {
+    rec.counters.get(key).copied().unwrap_or(0)
 }
 
 fn find_file(dir: &str, short_name: &str) -> Option<String> {
@@ -341,7 +362,7 @@ pub fn run_ops(rec: &mut Recorder, hname: &str, cfg: &Cfg, xops: &[XOp], nkeys: 
         if let Some(ab) = &abs_before {
             let aa = abs_dir(&sim.root);
             match op {
-                Op::Verify => emit_pass(rec, &tag, ab, &aa, &sim.last_verify, &taint),
+                Op::Verify => emit_pass(rec, &tag, ab, &aa, &sim.last_verify, &sim.last_verify_full, &taint),
                 _ => {
                     let listed = sim.kvs().verif_tree().verif_manifest().0;
                     emit_orph(rec, &tag, ab, &aa, &listed, &taint);
@@ -541,6 +562,142 @@ fn directed(rec: &mut Recorder, seed: u64, budget: &mut TraceBudget) {
         run_ops(rec, &format!("r{}", i), &wide, &ops, 12, &mut rng, budget);
         budget.passes = saved;
     }
+}
+
+/// Directed histories for the RANGE of `last_removals` (all entries, the newest numbered fragment
+/// and MANIFEST included): D-28's history without its last reopens, so that at the first verifier
+/// pass the second removal of the re-created files is still in MANIFEST (`trailing` = 0) or in the
+/// newest numbered fragment (`trailing` = 1) — the two entries no pass processes — while the first
+/// removal and the edit that adds the files back are in fragments the pass does process.  Three
+/// passes (the harness reopens the store after each, which rolls the manifest over): the first must
+/// leave the copies alone, the second verifies the fragment that adds the files back, the third
+/// comes to the second removal and unlinks them.  No strace needed.
+fn directed_newest(rec: &mut Recorder, seed: u64, budget: &mut TraceBudget, have_strace: bool) {
+    let saved = budget.passes;
+    // (rollover ratio, trailing reopens, the second removal is in MANIFEST at the first pass)
+    for (i, (mr, trailing, in_live)) in [(10u64, 0usize, true), (10, 1, false), (2, 0, false), (1, 0, false)].iter().enumerate() {
+        let (wide, _, _) = d28_cfgs(*mr);
+        let mut rng = Rng::for_case(seed, 308, i as u64);
+        let mut ops = d28_history(*mr);
+        ops.truncate(ops.len() - 2);
+        for _ in 0..*trailing {
+            ops.push(XOp::S(Op::Reopen));
+        }
+        // the first pass traced once (crash images inside the pass that must leave the copy alone)
+        budget.passes = if have_strace && i == 1 { 1 } else { 0 };
+        ops.extend(vec![XOp::TracedVerify, XOp::S(Op::Verify), XOp::S(Op::Verify), XOp::S(Op::Verify), XOp::S(Op::Reopen)]);
+        let before = (ctr(rec, "vfy.pass.trash_copy_last_removed_by_newest_fragment"), ctr(rec, "vfy.pass.trash_copy_last_removed_by_MANIFEST"));
+        run_ops(rec, &format!("n{}", i), &wide, &ops, 12, &mut rng, budget);
+        let after = (ctr(rec, "vfy.pass.trash_copy_last_removed_by_newest_fragment"), ctr(rec, "vfy.pass.trash_copy_last_removed_by_MANIFEST"));
+        // the situation must be reached on every run: a pass that meets a trash copy whose last
+        // removal is in the newest two entries
+        if std::env::var("BLUE_DEBUG").is_ok() {
+            eprintln!("n{} mr={} trailing={}: newest-fragment {} MANIFEST {}", i, mr, trailing, after.0 - before.0, after.1 - before.1);
+        }
+        let reached = if *in_live { after.1 > before.1 } else { after.0 > before.0 };
+        let v = if reached { Verdict::Ok } else { Verdict::Fail { class: "machinery".into(), detail: format!("directed history n{} (mr={} trailing reopens={}) did not reach a verifier pass over a trash copy whose last removal is in {}", i, mr, trailing, if *in_live { "MANIFEST" } else { "the newest numbered fragment" }) } };
+        rec.case(&format!("# n{} reached", i), "#", v, None);
+    }
+    budget.passes = saved;
+}
+
+/// Directed crash image for the INPUT of the orphan scan: the live MANIFEST as it is when
+/// `cleanup_orphans` runs, i.e. after the edits log recovery wrote during the same open.
+///
+/// The crash catches two threads mid-way: the flush thread has ingested X2 (manifest edit `+X2`,
+/// `L` = n) and has not yet renamed log.n to trash/; the compaction thread has merged X2 (and X1)
+/// into Y and written `-X1 -X2 +Y`, and has not installed the version (X1, X2 still in sst/).  The
+/// single-stepped store cannot stop there, so the image is built from the state after both have
+/// finished by undoing the renames the crash would have prevented.  On reopen `recover_one`
+/// replays log.n, finds sst/X2 present and X2 not listed, and lists it again in the live MANIFEST;
+/// the clean-up that follows must move X1 and must leave X2.
+fn relisted_case(rec: &mut Recorder, variant: u64) {
+    let debug = std::env::var("BLUE_DEBUG").is_ok();
+    let cfg = Cfg { memtable_bytes: 1 << 20, target_file: 1 << 22, min_file: 64, target_block: 256, l0_mandatory_files: 0, l0_stall_files: 12, max_compaction_files: 16, gc_versions: 1, mani_ratio: if variant == 0 { 10 } else { 1 } };
+    let root = scratch_dir(&format!("c08.relisted{}", variant));
+    let tag = format!("relisted{}", variant);
+    let mut sim = match Sim::open(&root, &cfg) {
+        Ok(s) => s,
+        Err(_) => return,
+    };
+    let keys: Vec<Vec<u8>> = vec![b"j".to_vec(), b"k".to_vec(), b"q".to_vec()];
+    let mut ok = true;
+    let mut go = |sim: &mut Sim, ops: &[Op]| {
+        for op in ops {
+            if sim.apply(op).is_err() {
+                ok = false;
+            }
+        }
+    };
+    // the newest flush edit (`L`), a later edit that removes its file, all that edit removes
+    let find = |d: &AbsDir| -> Option<(String, String, Vec<String>)> {
+        let mut edits: Vec<&AEdit> = vec![];
+        for (_, es) in &d.frags {
+            edits.extend(es.iter().skip(1));
+        }
+        edits.extend(d.live.iter().skip(1));
+        let (at, fl) = edits.iter().enumerate().rev().find(|(_, e)| e.info.iter().any(|(k, _)| *k == 'L'))?;
+        let x2 = fl.add.first()?.clone();
+        let log = fl.info.iter().find(|(k, _)| *k == 'L')?.1.clone();
+        let rm = edits[at + 1..].iter().find(|e| e.rm.contains(&x2) && !e.add.contains(&x2))?;
+        let inputs: Vec<String> = rm.rm.iter().filter(|x| !rm.add.contains(x)).cloned().collect();
+        Some((x2, log, inputs))
+    };
+    let mut found = None;
+    'rounds: for round in 0..6u8 {
+        // X1 = {j, k}, then X2 = {k, q}, then more of the same until a compaction merges the file
+        // of the newest flush
+        let big: Vec<u8> = std::iter::repeat(b'q' + round).take(400).collect();
+        if round == 0 {
+            go(&mut sim, &[Op::Put(b"j".to_vec(), b"vj".to_vec()), Op::Put(b"k".to_vec(), b"vk1".to_vec()), Op::Flush]);
+        } else {
+            go(&mut sim, &[Op::Put(b"k".to_vec(), format!("vk{}", round + 1).into_bytes()), Op::Put(b"q".to_vec(), big), Op::Flush]);
+        }
+        for _ in 0..40 {
+            go(&mut sim, &[Op::Compact(1)]);
+            let d = abs_dir(&sim.root);
+            if let Some(f) = find(&d) {
+                if f.2.iter().all(|x| d.trash.contains(&format!("{}.sst", x)) && !d.sst.contains(x)) && d.trash.contains(&format!("log.{}", f.1)) {
+                    found = Some(f);
+                    break 'rounds;
+                }
+            }
+        }
+    }
+    let Some((x2, log, inputs)) = found else {
+        rec.case(&format!("# {} reached", tag), "#", Verdict::Fail { class: "machinery".into(), detail: format!("{}: no compaction merged the file of the newest flush (ops ok: {})", tag, ok) }, None);
+        sim.close();
+        return;
+    };
+    let img = scratch_dir(&format!("c08.relisted{}.img", variant));
+    if !ok || copy_tree(&sim.root, &img).is_err() {
+        rec.case(&format!("# {} reached", tag), "#", Verdict::Fail { class: "machinery".into(), detail: format!("{}: history or copy failed", tag) }, None);
+        sim.close();
+        return;
+    }
+    // take back the renames the crash prevented
+    let mut undone = 0;
+    for x in &inputs {
+        if let Some(full) = find_file(&format!("{}/trash", img), &format!("{}.sst", x)) {
+            if std::fs::rename(format!("{}/trash/{}", img, full), format!("{}/sst/{}", img, full)).is_ok() {
+                undone += 1;
+            }
+        }
+    }
+    let log_ok = std::fs::rename(format!("{}/trash/log.{}", img, log), format!("{}/log.{}", img, log)).is_ok();
+    if debug {
+        eprintln!("{}: X2={} log={} inputs={:?} undone={} log_ok={}", tag, x2, log, inputs, undone, log_ok);
+    }
+    rec.count("relisted_image.images");
+    rec.add("relisted_image.trash_moves_undone", undone);
+    // variant 1 (rollover at every edit): the recovery edit is rolled into a fragment at once
+    let key = if variant == 0 { "orph.reopens_with_file_relisted_by_recovery_in_live_MANIFEST" } else { "orph.reopens_with_file_relisted_by_recovery_in_newest_fragment" };
+    let before = ctr(rec, key);
+    reopen_image(rec, &tag, &img, &cfg, &keys, &sim.oracle, &None);
+    let reached = ctr(rec, key) > before;
+    let v = if reached && log_ok && undone == inputs.len() as u64 { Verdict::Ok } else { Verdict::Fail { class: "machinery".into(), detail: format!("{}: the reopen of the image did not list {} again (undone {} of {:?}, log moved back: {})", tag, x2, undone, inputs, log_ok) } };
+    rec.case(&format!("# {} reached", tag), "#", v, None);
+    sim.close();
 }
 
 // ------------------------------------------------------------------------------------------------
@@ -866,12 +1023,120 @@ fn d28_complaints(pre: &AbsDir, post: &AbsDir) -> Vec<String> {
     bad
 }
 
+/// class of the oracle complaints about the two newest manifest entries (an input predicate: the
+/// directory holds a `<digest>.sst` in trash/ — or had it — whose LAST removal is recorded by the
+/// newest numbered fragment or by MANIFEST, the two entries `LsmVerifier::verify` pops and never
+/// processes, while an older fragment also records a removal of that digest)
+const NEWEST2: &str = "verifier-trash-copy-whose-last-removal-is-in-the-two-newest-manifest-entries";
+
+/// for every digest the entry that removes it LAST, as `last_removals` is to compute it: over every
+/// numbered fragment (index into `frags`) and MANIFEST (index `frags.len()`), every edit of each
+fn last_removal_places(d: &AbsDir) -> BTreeMap<String, usize> {
+    let mut m = BTreeMap::new();
+    for (i, (_, es)) in d.frags.iter().enumerate() {
+        for e in es {
+            for r in &e.rm {
+                if !e.add.contains(r) {
+                    m.insert(r.clone(), i);
+                }
+            }
+        }
+    }
+    for e in &d.live {
+        for r in &e.rm {
+            if !e.add.contains(r) {
+                m.insert(r.clone(), d.frags.len());
+            }
+        }
+    }
+    m
+}
+
+fn entry_name(d: &AbsDir, place: usize) -> String {
+    match d.frags.get(place) {
+        Some((n, _)) => format!("MANIFEST.{}", n),
+        None => "MANIFEST".to_string(),
+    }
+}
+
+/// the digests with a copy in trash/ whose last removal is in one of the two newest entries and
+/// which a fragment the pass may process (any but the newest) removes, too: the inputs on which
+/// the range of `last_removals` matters
+fn newest_two_inputs(d: &AbsDir) -> Vec<(String, usize)> {
+    if d.frags.is_empty() {
+        return vec![];
+    }
+    let places = last_removal_places(d);
+    let mut out = vec![];
+    for (x, p) in places {
+        if p + 1 < d.frags.len() || !d.trash.contains(&format!("{}.sst", x)) {
+            continue;
+        }
+        let earlier = d.frags[..d.frags.len() - 1].iter().any(|(_, es)| es.iter().any(|e| e.rm.contains(&x) && !e.add.contains(&x)));
+        if earlier {
+            out.push((x, p));
+        }
+    }
+    out
+}
+
+/// A `<digest>.sst` left trash/ between the two states although the LAST edit that removes that
+/// digest is in the newest numbered fragment or in MANIFEST: no pass processes those two, so no
+/// pass may hand out the copy that belongs to them (names already logged in verify/ before are
+/// an earlier pass's decision and are left to the protocol check).
+fn newest_two_complaints(pre: &AbsDir, post: &AbsDir) -> Vec<String> {
+    if pre.frags.is_empty() {
+        return vec![];
+    }
+    let places = last_removal_places(pre);
+    let post_trash: BTreeSet<&String> = post.trash.iter().collect();
+    let mut bad = vec![];
+    for x in &pre.trash {
+        if post_trash.contains(x) || pre.vstrs.contains(x) {
+            continue;
+        }
+        if let Some(d) = x.strip_suffix(".sst") {
+            if let Some(p) = places.get(d) {
+                if *p + 1 >= pre.frags.len() {
+                    bad.push(format!("trash/{} was unlinked (M={:?} in verify/), and the last edit that removes that file is in {}, one of the two newest manifest entries, which no pass processes: the copy belongs to that removal", x, post.vm, entry_name(pre, *p)));
+                }
+            }
+        }
+    }
+    bad
+}
+
+/// A pass that stopped with NotFound for `trash/<digest>.sst` where the last removal of that digest
+/// is in the two newest entries: an earlier removal was given the one copy (in this pass or in a
+/// pass before it), and the fragment that adds the file back cannot be verified any more.
+fn newest_two_wedged(pre: &AbsDir, err_text: &str) -> Vec<String> {
+    if pre.frags.is_empty() || !err_text.contains("NotFound") {
+        return vec![];
+    }
+    let Some(i) = err_text.find("trash/") else { return vec![] };
+    let name: String = err_text[i + 6..].chars().take_while(|c| c.is_ascii_hexdigit()).collect();
+    if name.len() != 64 || !err_text[i + 6 + 64..].starts_with(".sst") {
+        return vec![];
+    }
+    let x = sh(&name);
+    match last_removal_places(pre).get(&x) {
+        Some(p) if *p + 1 >= pre.frags.len() => vec![format!("the pass stopped with NotFound for trash/{}.sst; the last edit that removes that file is in {} (one of the two newest manifest entries, not processed by any pass): the copy was handed to an earlier removal and the fragment that adds the file back cannot be verified", x, entry_name(pre, *p))],
+        _ => vec![],
+    }
+}
+
 /// the verdict on the verifier's protocol between two directory states
 fn protocol_verdict(tag: &str, pre: &AbsDir, post: &AbsDir, extra: Vec<String>, taint: &Option<String>) -> Verdict {
     let d28 = d28_complaints(pre, post);
     let mut bad = protocol_complaints(pre, post);
-    bad.extend(extra);
-    if !d28.is_empty() {
+    let mut newest = newest_two_complaints(pre, post);
+    newest.extend(extra.iter().filter(|x| x.starts_with("the pass stopped with NotFound for trash/")).cloned());
+    bad.extend(extra.into_iter().filter(|x| !x.starts_with("the pass stopped with NotFound for trash/")));
+    if !newest.is_empty() {
+        // a predicate on the two directory states (and the error text) alone: not attributed to
+        // the trigger of another finding
+        Verdict::Fail { class: NEWEST2.to_string(), detail: format!("{} {}", tag, newest.into_iter().chain(bad).collect::<Vec<_>>().join("; ")) }
+    } else if !d28.is_empty() {
         Verdict::Fail { class: fail_class(taint, D28), detail: format!("{} {}", tag, d28.into_iter().chain(bad).collect::<Vec<_>>().join("; ")) }
     } else if !bad.is_empty() {
         Verdict::Fail { class: fail_class(taint, "verifier-removed-unlogged-or-needed-file"), detail: format!("{} {}", tag, bad.join("; ")) }
@@ -970,7 +1235,7 @@ fn real_pass(root: &str, cfg: &Cfg) -> String {
         Ok(Ok(())) => "ok".to_string(),
         Ok(Err(e)) => match lsmtk::backoff_path(&e) {
             Some(p) => format!("backoff:{}", p),
-            None => format!("error:{}", format!("{:?}", e).replace(char::is_whitespace, "_").chars().take(200).collect::<String>()),
+            None => format!("error:{}", format!("{:?}", e).replace(char::is_whitespace, "_").chars().take(4000).collect::<String>()),
         },
         Err(p) => format!("panic:{}", p),
     }
@@ -1146,13 +1411,20 @@ fn fail_class(taint: &Option<String>, class: &str) -> String {
 }
 
 /// one real verifier pass against the model's `vfy pass`, plus the protocol oracle
-fn emit_pass(rec: &mut Recorder, tag: &str, before: &AbsDir, after: &AbsDir, last_verify: &str, taint: &Option<String>) {
+fn emit_pass(rec: &mut Recorder, tag: &str, before: &AbsDir, after: &AbsDir, last_verify: &str, err_text: &str, taint: &Option<String>) {
     if before.unreadable || after.unreadable {
         rec.count("vfy.pass.skipped_unreadable_fragment");
         return;
     }
     let st = status_token(last_verify);
-    let extra = if st == "panic" { vec![format!("verifier panicked: {}", last_verify)] } else { vec![] };
+    let mut extra = if st == "panic" { vec![format!("verifier panicked: {}", last_verify)] } else { vec![] };
+    if st == "corrupt" {
+        extra.extend(newest_two_wedged(before, err_text));
+    }
+    // how often a pass meets the inputs on which the range of `last_removals` matters
+    for (_, p) in newest_two_inputs(before) {
+        rec.count(if p < before.frags.len() { "vfy.pass.trash_copy_last_removed_by_newest_fragment" } else { "vfy.pass.trash_copy_last_removed_by_MANIFEST" });
+    }
     let v = protocol_verdict(tag, before, after, extra, taint);
     rec.count(&format!("vfy.pass.{}", st.split(':').next().unwrap_or("")));
     let req = format!("vfy pass {}", before.request());
@@ -1160,7 +1432,13 @@ fn emit_pass(rec: &mut Recorder, tag: &str, before: &AbsDir, after: &AbsDir, las
     rec.case(&req, &observed_pass(before, after, &st), tainted(v, taint), nontrivial);
 }
 
-/// one real reopen against the model's `orph`, plus the oracle: nothing listed leaves sst/
+/// class of the oracle complaint about the live MANIFEST (input predicate: see `emit_orph`)
+const RELISTED: &str = "cleanup-moved-file-relisted-in-live-manifest-by-log-recovery";
+
+/// one real reopen against the model's `orph`, plus the oracle: nothing listed leaves sst/.
+/// The fragments handed to the model are those of the directory AFTER the open, MANIFEST last:
+/// the live MANIFEST as `cleanup_orphans` scans it, with the edits `recover_one` wrote during
+/// this very open (nothing writes to the manifest between the clean-up and the end of the open).
 fn emit_orph(rec: &mut Recorder, tag: &str, before: &AbsDir, after: &AbsDir, listed_real: &[String], taint: &Option<String>) {
     if after.unreadable {
         rec.count("orph.skipped_unreadable_fragment");
@@ -1173,6 +1451,30 @@ fn emit_orph(rec: &mut Recorder, tag: &str, before: &AbsDir, after: &AbsDir, lis
     let moved: Vec<String> = left.iter().filter(|x| a_trash.contains(&format!("{}.sst", x))).cloned().collect();
     let listed: BTreeSet<String> = listed_real.iter().map(|x| sh(x)).collect();
     let mut bad = vec![];
+    // Files that an edit of MANIFEST written DURING this open lists again (log recovery,
+    // `recover_one`: the edits after the roll-up in the live MANIFEST as it is when the clean-up
+    // scans it) after an edit of an older fragment removed them: an input predicate on the
+    // fragments the scan reads.
+    let relisted: BTreeSet<String> = after.live.iter().skip(1).flat_map(|e| e.add.iter().cloned()).filter(|x| after.frags.iter().any(|(_, es)| es.iter().skip(1).any(|e| e.rm.contains(x) && !e.add.contains(x)))).collect();
+    if !relisted.is_empty() {
+        rec.count("orph.reopens_with_file_relisted_by_recovery_in_live_MANIFEST");
+    }
+    // the same when the recovery edit has already been rolled into a fragment of its own (small
+    // rollover ratio): counted, not a class of its own (every scan reads that fragment)
+    if let Some((n, es)) = after.frags.last() {
+        if !before.frags.iter().any(|f| f.0 == *n) {
+            let older = &after.frags[..after.frags.len() - 1];
+            if es.iter().skip(1).flat_map(|e| e.add.iter()).any(|x| older.iter().any(|(_, es)| es.iter().skip(1).any(|e| e.rm.contains(x) && !e.add.contains(x)))) {
+                rec.count("orph.reopens_with_file_relisted_by_recovery_in_newest_fragment");
+            }
+        }
+    }
+    let mut relisted_moved = vec![];
+    for x in &left {
+        if listed.contains(x) && relisted.contains(x) {
+            relisted_moved.push(format!("clean-up moved {} out of sst/ although the live MANIFEST lists it: an edit written during this open (log recovery) adds it back after an older fragment removed it", x));
+        }
+    }
     for x in &left {
         if listed.contains(x) {
             bad.push(format!("listed file {} left sst/ during the reopen", x));
@@ -1193,8 +1495,15 @@ fn emit_orph(rec: &mut Recorder, tag: &str, before: &AbsDir, after: &AbsDir, lis
     let obs = format!("moved={} listed={}", sorted_plus(moved.iter()), sorted_plus(listed.iter()));
     rec.count("orph.reopens");
     rec.add("orph.moved", moved.len() as u64);
-    let v = if bad.is_empty() { Verdict::Ok } else { Verdict::Fail { class: fail_class(taint, "cleanup-removed-listed-file"), detail: format!("{} {}", tag, bad.join("; ")) } };
-    rec.case(&req, &obs, tainted(v, taint), if !moved.is_empty() { Some(fnv(req.as_bytes())) } else { None });
+    let v = if !relisted_moved.is_empty() {
+        // decided by the fragments and the two listings alone: not attributed to another finding
+        Verdict::Fail { class: RELISTED.to_string(), detail: format!("{} {}", tag, relisted_moved.into_iter().chain(bad).collect::<Vec<_>>().join("; ")) }
+    } else if bad.is_empty() {
+        Verdict::Ok
+    } else {
+        Verdict::Fail { class: fail_class(taint, "cleanup-removed-listed-file"), detail: format!("{} {}", tag, bad.join("; ")) }
+    };
+    rec.case(&req, &obs, tainted(v, taint), if !moved.is_empty() || !relisted.is_empty() { Some(fnv(req.as_bytes())) } else { None });
 }
 
 /// open the real store on `root` (an image), compare the clean-up with the model, read everything
@@ -1248,7 +1557,7 @@ fn pass_on_image(rec: &mut Recorder, tag: &str, root: &str, cfg: &Cfg, taint: &O
     let before = abs_dir(root);
     let st = real_pass(root, cfg);
     let after = abs_dir(root);
-    emit_pass(rec, tag, &before, &after, &st, taint);
+    emit_pass(rec, tag, &before, &after, &st, &st, taint);
     (before, after, st)
 }
 
@@ -1307,7 +1616,7 @@ fn traced_pass(rec: &mut Recorder, tag: &str, root: &str, cfg: &Cfg, keys: &[Vec
     rec.corr(&req, &format!("st={} acts={}", status_token(&status), if acts.is_empty() { "-".to_string() } else { acts.join(",") }), if acts.len() >= 3 { Some(fnv(req.as_bytes())) } else { None });
     // the traced run as a whole is a pass, too
     let dend = abs_dir(&runr);
-    emit_pass(rec, &format!("{} (traced)", tag), &d0, &dend, &status, taint);
+    emit_pass(rec, &format!("{} (traced)", tag), &d0, &dend, &status, &status, taint);
     // ---- crash points
     let mutating: Vec<usize> = ops.iter().enumerate().filter(|(_, o)| o.mutating()).map(|(i, _)| i).collect();
     let mut fs = match simfs_of(&pre) {
@@ -1382,9 +1691,20 @@ pub fn run(args: &Args) {
     if only.is_none() {
         pinned_output_case(&mut rec);
     }
+    if only.is_none() {
+        let t0 = std::time::Instant::now();
+        relisted_case(&mut rec, 0);
+        relisted_case(&mut rec, 1);
+        directed_newest(&mut rec, args.seed, &mut budget, have_strace);
+        if std::env::var("BLUE_TIMING").is_ok() {
+            eprintln!("relisted images + newest-two histories took {} ms", t0.elapsed().as_millis());
+        }
+    }
     if have_strace && only.is_none() {
         directed(&mut rec, args.seed, &mut budget);
     }
+    // BLUE_C08_ONLY=directed: the directed cases alone
+    let nh = if std::env::var("BLUE_C08_ONLY").map(|x| x == "directed").unwrap_or(false) { 0 } else { nh };
     for h in 0..nh {
         if only.map(|o| o != h).unwrap_or(false) {
             continue;
@@ -1393,7 +1713,7 @@ pub fn run(args: &Args) {
         run_history(&mut rec, args.seed, h, len, nkeys, &mut budget);
     }
     rec.finish(
-        "store histories as in C01 with verifier passes (about one op in ten, some twice in a row), reopens (a third of them under other options) and directed images; after every op the directory listing is checked against the current version; every verifier pass and every reopen is compared with the verifier / orphan clean-up model on the dumped directory (names, every fragment's edits, verify/ manifest) and followed by a reopen and a full read-back; traced passes (strace, child on a copy): action order, the directory after every prefix of the system calls, every distinct crash image (completed calls persist / unsynced bytes lost) restarted with the real verifier, reopened and read back; per store incarnation the sequence of installed versions is replayed through the reference-counting model; non-trivial = an incarnation with >= 3 version installs, a pass that unlinks a fragment / backs off / finds a pending intent, a reopen that moves an orphan, a traced pass with >= 3 actions, every distinct crash image; distinct by request",
+        "directed first: two crash images in which log recovery lists a just-compacted file again (in the live MANIFEST; under rollover ratio 1 in a fragment of its own) before the orphan clean-up scans the manifest, and four cuts of the D-28 history in which the first verifier pass meets trash copies whose last removal is still in MANIFEST or in the newest numbered fragment (each followed by the passes that come to that removal; the run fails if the situation is not reached). Then store histories as in C01 with verifier passes (about one op in ten, some twice in a row), reopens (a third of them under other options) and directed images; after every op the directory listing is checked against the current version; every verifier pass and every reopen is compared with the verifier / orphan clean-up model on the dumped directory (names, every fragment's edits, verify/ manifest) and followed by a reopen and a full read-back; traced passes (strace, child on a copy): action order, the directory after every prefix of the system calls, every distinct crash image (completed calls persist / unsynced bytes lost) restarted with the real verifier, reopened and read back; per store incarnation the sequence of installed versions is replayed through the reference-counting model; non-trivial = an incarnation with >= 3 version installs, a pass that unlinks a fragment / backs off / finds a pending intent, a reopen that moves an orphan, a traced pass with >= 3 actions, every distinct crash image; distinct by request",
         &[],
     );
 }
